@@ -83,6 +83,7 @@ type Sim struct {
 	locks    map[unsafe.Pointer]*lockState
 	pools    map[*sync.Pool][]any
 	conds    map[unsafe.Pointer][]*Task
+	poison, poisonInit bool
 	schedSig uint64
 	switches int
 	// targeted preemption: in some runs one yield site (the hotK-th distinct site
